@@ -329,6 +329,61 @@ def restore {N : Type} (o : Obj N) (p : Path) : Except Err (Obj N) :=
               .ok { fields := dSet f nv o.fields,
                     original := some (orig.filter (fun e => !(isPrefix p e.1))) }              -- :303-304, :311
 
+/-! ## DumpModifiedAttributes and its replay at start-up -/
+
+/-- configobject.cpp:645-656: walk the intermediate tokens as far as they lead through dictionaries
+    (`break` on a non-dictionary or a missing key; the value reached so far is kept). -/
+def walkDump {N : Type} : Path → JValue N → JValue N
+  | [], cur => cur
+  | k :: ks, cur =>
+    match cur with
+    | .obj kvs =>
+      match dGet? k kvs with
+      | some c => walkDump ks c
+      | none => cur                                  -- :652-653
+    | _ => cur                                       -- :646-647 (a throw before commit 999361f)
+
+/-- configobject.cpp:645-671 below the field value: the value currently stored under the entry's last
+    token in the dictionary the walk ends in; `none` = the entry is skipped because that is no longer a
+    dictionary (:658-661, an exception aborting the whole dump before commit 999361f) or no longer has
+    the key (:666-668; written as a modification to Empty before commit 1d70162). -/
+def dumpIn {N : Type} (toks : Path) (cv : JValue N) : Option (JValue N) :=
+  match walkDump toks.dropLast cv, toks.getLast? with
+  | .obj kvs, some last => dGet? last kvs
+  | _, _ => none
+
+/-- configobject.cpp:625-676 for one original entry: the current value at its path, which is what
+    modified-attributes.conf records. -/
+def dumpEntry {N : Type} (fields : Dict N) (p : Path) : Option (Path × JValue N) :=
+  match p with
+  | [] => none
+  | [f] =>
+    match dGet? f fields with
+    | some v => some (p, v)                          -- :672-673
+    | none => none
+  | f :: k :: ks =>
+    match dGet? f fields with
+    | none => none
+    | some cv =>
+      match dumpIn (k :: ks) cv with
+      | some v => some (p, v)
+      | none => none
+
+/-- `ConfigObject::DumpModifiedAttributes` (configobject.cpp:610-672): one `(attr, current value)` per
+    original entry, in key order — the `modify_attribute` calls of modified-attributes.conf
+    (icingaapplication.cpp:131-158). -/
+def dumpModified {N : Type} (o : Obj N) : List (Path × JValue N) :=
+  (origOf o).filterMap (fun e => dumpEntry o.fields e.1)
+
+/-- The replay at start-up (configitem.cpp:648-664): the script calls `modify_attribute` for each
+    entry on the freshly loaded object; an exception ends the evaluation of the script (:659-661). -/
+def replayModified {N : Type} : Obj N → List (Path × JValue N) → Obj N
+  | o, [] => o
+  | o, (p, v) :: r =>
+    match modify o p v with
+    | .ok o' => replayModified o' r
+    | .error _ => o
+
 /-- `ConfigObject::IsAttributeModified` (configobject.cpp:318-326). -/
 def isModified {N : Type} (o : Obj N) (p : Path) : Bool :=
   match o.original with
